@@ -1,8 +1,24 @@
 (** Property C15 - directory trees: populating from a FILE-LIST and matching directory contents.
-    Theorem statements only. *)
-From Coq Require Import NArith ZArith List Bool.
-From Exactly Require Import Lib.Tree Model.Files Spec.C15 Proofs.FilesPopulate.
+    Theorem statements only (proofs: Proofs/Files*.v; model: Model/Files.v; declarative side:
+    Spec/C15.v).  All statements are about the Gallina model of the anchored code; the model is tied
+    to the running code by the correspondence check (harness/c15.py). *)
+From Coq Require Import NArith ZArith List Bool Permutation.
+From Exactly Require Import Lib.Tree Model.Files Spec.C15
+  Proofs.FilesPopulate Proofs.FilesDenote Proofs.FilesSafe Proofs.FilesGen Proofs.FilesMatch Proofs.FilesMatchCor.
 Import ListNotations.
+
+(* ------------------------------------------------------------------------------------------ *)
+(** * Populating a directory from a FILE-LIST *)
+
+(** The name validator (file_list.py [_IsValidPosixPath]): an accepted FILE-NAME is not empty, not
+    absolute, and every component of it is a plain name: not empty, not ".", not "..", no "/". *)
+Theorem C15_name_validator :
+  forall s : name,
+    valid_name s = true ->
+    s <> [] /\ posix_abs s = false /\ ~ In DOTDOT (posix_parts s)
+    /\ Forall (fun c => c <> [] /\ c <> [DOT] /\ ~ In SLASH c) (posix_parts s).
+Proof. exact valid_name_sound. Qed.
+Print Assumptions C15_name_validator.
 
 (** "Files are created/modified in the order listed": populating from a list is populating from
     its first part and then, on the tree that produced, from the rest; a HARD_ERROR stops it. *)
@@ -15,3 +31,187 @@ Theorem C15_populate_in_order :
     end.
 Proof. exact populate_app. Qed.
 Print Assumptions C15_populate_in_order.
+
+(** Confinement.  Validated names, no symbolic link in the tree (guard), [sub] the directory at
+    [base]: populating at [base] inside ANY surrounding tree [st] is populating [sub] on its own,
+    with the result put back at [base] - nothing else of [st] is read or changed - and the model
+    never abstains. *)
+Theorem C15_populate_confined :
+  forall (es : list entry) (base : path) (st sub : tree),
+    entries_valid es = true -> link_free st = true -> get base st = Some sub ->
+    populate es base st = (put base (fst (populate es [] sub)) st, snd (populate es [] sub))
+    /\ snd (populate es base st) <> OutsideModel.
+Proof.
+  intros es base st sub V L G. split; [apply populate_confined; exact G | apply populate_safe; assumption].
+Qed.
+Print Assumptions C15_populate_confined.
+
+(** The tree left in the populated directory is exactly the tree the FILE-LIST denotes
+    (Spec [denote]: compositional, nested lists denoted on their own); HARD_ERROR exactly when the
+    list denotes nothing (a clash with something existing, [+=] on something that is not there). *)
+Theorem C15_populate_denotes :
+  forall (es : list entry) (d : dirc),
+    entries_valid es = true -> link_free (Dir d) = true ->
+    match populate es [] (Dir d) with
+    | (t, Done) => exists d', denote es d = Some d' /\ t = Dir d'
+    | (_, HardError) => denote es d = None
+    | (_, OutsideModel) => False
+    end.
+Proof.
+  intros es d V L. pose proof (populate_denotes es d) as A. destruct (populate_safe es [] (Dir d) V L) as [_ S].
+  unfold agrees in A. destruct (populate es [] (Dir d)) as [t [| |]]; cbn [fst snd] in *; [exact A | exact A | apply S; reflexivity].
+Qed.
+Print Assumptions C15_populate_denotes.
+
+(** Without the guards: whenever the model does not abstain, the same holds (dangling links and
+    links to files in the directory are handled by the model). *)
+Theorem C15_populate_denotes_unguarded :
+  forall (es : list entry) (d : dirc),
+    match populate es [] (Dir d) with
+    | (t, Done) => exists d', denote es d = Some d' /\ t = Dir d'
+    | (_, HardError) => denote es d = None
+    | (_, OutsideModel) => True
+    end.
+Proof.
+  intros es d. pose proof (populate_denotes es d) as A. unfold agrees in A.
+  destruct (populate es [] (Dir d)) as [t [| |]]; exact A.
+Qed.
+Print Assumptions C15_populate_denotes_unguarded.
+
+(** A clash is a HARD_ERROR and nothing is changed: creating (file / dir with [=] or without
+    contents) at a path where [lstat] finds something - also a dangling symbolic link. *)
+Theorem C15_clash_is_hard_error :
+  forall (nm : name) (base : path) (st t : tree),
+    posix_abs nm || mem_name DOTDOT (posix_parts nm) = false ->
+    lstat (base ++ posix_parts nm) st = LFound t ->
+    (forall c, make (EFile nm c) base st = (st, HardError) \/ exists x, c = Some (Append, x))
+    /\ make (EDir nm) base st = (st, HardError)
+    /\ (forall es, make (EDirList nm Create es) base st = (st, HardError))
+    /\ (forall src, make (EDirCopy nm Create src) base st = (st, HardError)).
+Proof.
+  intros nm base st t N L. repeat split.
+  - intros [[[|] x]|]; [left | right; eauto | left]; rewrite make_eq; cbn zeta; cbn [entry_name]; unfold name_escapes; rewrite N;
+      eapply create_clash; exact L.
+  - rewrite make_eq. cbn zeta. cbn [entry_name]. unfold name_escapes. rewrite N. eapply create_clash. exact L.
+  - intros es. rewrite make_eq. cbn zeta. cbn [entry_name]. unfold name_escapes. rewrite N. rewrite (create_clash _ _ _ _ L). reflexivity.
+  - intros src. rewrite make_eq. cbn zeta. cbn [entry_name]. unfold name_escapes. rewrite N. rewrite (create_clash _ _ _ _ L). reflexivity.
+Qed.
+Print Assumptions C15_clash_is_hard_error.
+
+(* ------------------------------------------------------------------------------------------ *)
+(** * The files generator and the matchers *)
+
+(** -recursive [-min-depth] [-max-depth] with a prune matcher: for ANY order in which the OS lists
+    directories ([scandir]: some permutation), the breadth-first queue of the code yields a
+    permutation of the declarative set [walk] ("a file is included iff its depth is in range and no
+    proper ancestor is pruned or at max depth; links to directories are followed"), raises nothing,
+    and does not run out of fuel. *)
+Theorem C15_generate_permutation :
+  forall (scandir : path -> dirc -> dirc),
+    (forall p l, Permutation (scandir p l) l) ->
+    forall (prune_spec : elem -> option bool) (prune_code : elem -> res bool),
+      (forall e b, prune_spec e = Some b -> prune_code e = Ok b) ->
+      forall (mn mx : option nat) (root : tree) (abs : path) (L : list elem),
+        walk prune_spec mn mx root [] abs 0 = Some L ->
+        exists L', generate scandir (Rec mn mx) (Some prune_code) root abs = (L', None) /\ Permutation L' L.
+Proof.
+  intros scandir HP ps pc HA mn mx root abs L H.
+  exact (gen_recursive_spec scandir HP ps pc HA mn mx root abs L H).
+Qed.
+Print Assumptions C15_generate_permutation.
+
+(** Every files-matcher and file-matcher of the model (is-empty, num-files, every/any file,
+    matches [-full], -selection, -with-pruned, !, &&, ||; type, name/stem/suffixes/suffix/path
+    patterns, contents, dir-contents [-recursive ..]): whenever the declarative semantics of the manual
+    gives a verdict ([sem_fm] = Some b: no file that is consulted is of a type for which the manual
+    prescribes HARD_ERROR), the code gives that verdict, for EVERY order in which the OS may list
+    directories. *)
+Theorem C15_matcher_semantics :
+  forall (gs : nat -> name -> option bool) (gp : nat -> path -> option bool)
+         (scandir : path -> dirc -> dirc),
+    (forall p l, Permutation (scandir p l) l) ->
+    forall (m : fmatcher) (e : elem) (b : bool),
+      sem_fm gs gp m e = Some b -> eval_fm scandir gs gp m e = Ok b.
+Proof. intros gs gp scandir HP. exact (fm_sound gs gp scandir HP). Qed.
+Print Assumptions C15_matcher_semantics.
+
+(** ... and the same for a FILES-MATCHER applied to a model (a directory with selection and prune
+    matchers that agree with their declarative counterparts). *)
+Theorem C15_files_matcher_semantics :
+  forall gs gp (scandir : path -> dirc -> dirc),
+    (forall p l, Permutation (scandir p l) l) ->
+    forall (m : fsmatcher) (M : fsmodel) (SM : smodel) (b : bool),
+      models_agree M SM -> sem_fsm gs gp m SM = Some b -> eval_fsm scandir gs gp m M = Ok b.
+Proof. intros gs gp scandir HP. exact (proj1 (proj2 (matchers_sound scandir HP gs gp))). Qed.
+Print Assumptions C15_files_matcher_semantics.
+
+(** Consequence: the verdict does not depend on the order in which directories are listed. *)
+Theorem C15_matchers_order_insensitive :
+  forall gs gp (sc1 sc2 : path -> dirc -> dirc),
+    (forall p l, Permutation (sc1 p l) l) -> (forall p l, Permutation (sc2 p l) l) ->
+    forall (m : fmatcher) (e : elem) (b : bool),
+      sem_fm gs gp m e = Some b ->
+      eval_fm sc1 gs gp m e = Ok b /\ eval_fm sc2 gs gp m e = Ok b.
+Proof. intros gs gp. exact (order_insensitive gs gp). Qed.
+Print Assumptions C15_matchers_order_insensitive.
+
+(** -selection is a conjunction, -with-pruned a disjunction, and they commute ("pruning is done
+    before -selection, regardless of their mutual order"). *)
+Theorem C15_selection_conj :
+  forall gs gp (f g : fmatcher) (m : fsmatcher) (SM : smodel),
+    sem_fsm gs gp (SSelection f (SSelection g m)) SM = sem_fsm gs gp (SSelection (FAnd f g) m) SM.
+Proof. exact selection_conj. Qed.
+Print Assumptions C15_selection_conj.
+
+Theorem C15_prune_disj :
+  forall gs gp (f g : fmatcher) (m : fsmatcher) (SM : smodel),
+    sem_fsm gs gp (SPrune f (SPrune g m)) SM = sem_fsm gs gp (SPrune (FOr f g) m) SM.
+Proof. exact prune_disj. Qed.
+Print Assumptions C15_prune_disj.
+
+Theorem C15_selection_prune_commute :
+  forall gs gp (f g : fmatcher) (m : fsmatcher) (SM : smodel),
+    sem_fsm gs gp (SSelection f (SPrune g m)) SM = sem_fsm gs gp (SPrune g (SSelection f m)) SM.
+Proof. exact selection_prune_commute. Qed.
+Print Assumptions C15_selection_prune_commute.
+
+(** In the model of the code itself: the files of [sub_set M f] are the files of [M] that [f]
+    accepts, evaluated lazily (an exception of [f] ends the iteration there). *)
+Theorem C15_files_of_selection :
+  forall (scandir : path -> dirc -> dirc) (M : fsmodel) (f : elem -> res bool),
+    files scandir (sub_set M f) = let (items, er) := files scandir M in filter_stream f items er.
+Proof. exact files_sub_set. Qed.
+Print Assumptions C15_files_of_selection.
+
+(* ------------------------------------------------------------------------------------------ *)
+(** * Non-vacuity *)
+
+Definition n_a : name := [97%N].
+Definition n_b : name := [98%N].
+Definition n_c : name := [99%N].
+Definition n_ab : name := [97%N; 47%N; 98%N].         (* "a/b" *)
+
+(** dir d = { file a/b = 'c' ; dir c ; file a/b += 'c' ; dir c += { file b } } *)
+Example C15_example_populate :
+  let es := [EFile n_ab (Some (Create, n_c)); EDir n_c; EFile n_ab (Some (Append, n_c));
+             EDirList n_c Append [EFile n_b None]] in
+  entries_valid es = true
+  /\ populate es [] (Dir []) = (Dir [(n_a, Dir [(n_b, File [99%N; 99%N])]); (n_c, Dir [(n_b, File [])])], Done)
+  /\ denote es [] = Some [(n_a, Dir [(n_b, File [99%N; 99%N])]); (n_c, Dir [(n_b, File [])])]
+  /\ populate (es ++ [EDir n_c]) [] (Dir []) =
+       (Dir [(n_a, Dir [(n_b, File [99%N; 99%N])]); (n_c, Dir [(n_b, File [])])], HardError).
+Proof. vm_compute. repeat split; reflexivity. Qed.
+
+(** a tree with a link to a directory: -recursive -with-pruned (type symlink) num-files == 3 holds,
+    without pruning there are 4 files *)
+Example C15_example_matcher :
+  let t := Dir [(n_a, Dir [(n_b, File [])]); (n_c, Link (Some (Dir [(n_b, File [])])))] in
+  let no := fun (_ : nat) (_ : name) => @None bool in
+  let nop := fun (_ : nat) (_ : path) => @None bool in
+  let e := root_elem t [n_a] in
+  sem_fm no nop (FDirContents (Rec None None) (SPrune (FType TSymlink) (SNumFiles CEq 3))) e = Some true
+  /\ sem_fm no nop (FDirContents (Rec None None) (SNumFiles CEq 4)) e = Some true
+  /\ eval_fm id_order no nop (FDirContents (Rec None None) (SPrune (FType TSymlink) (SNumFiles CEq 3))) e = Ok true
+  /\ sem_fm no nop (FDirContents NonRec (SEvery (FContents TEmpty))) e = None
+  /\ eval_fm id_order no nop (FDirContents NonRec (SEvery (FContents TEmpty))) e = Err EHard.
+Proof. vm_compute. repeat split; reflexivity. Qed.
